@@ -304,9 +304,10 @@ func TestC06FirstDKG(t *testing.T) {
 		period := rapid.SampledFrom([]uint32{1, 3, 30}).Draw(rt, "period")
 		desc := fmt.Sprintf("first-dkg %s n=%d t=%d leader=%d order=%v period=%ds %s", scheme, n, thr, leader, perm, period, del)
 
+		wdStop := Watchdog("c06first", 150*time.Second)
+		defer wdStop()
 		bus := NewBus()
 		defer bus.CloseAll()
-		defer Watchdog("c06first", 150*time.Second)()
 		sch := fx.Scheme(scheme)
 		var nodes []*Node
 		var addrs []string
@@ -421,9 +422,10 @@ func TestC06Reshare(t *testing.T) {
 		del := genDelivery(rt, n1)
 		genesis := time.Now().Add(-100 * time.Second).Unix()
 		prev := fx.NewNet(seed, fx.Opts{Scheme: scheme, N: n0, T: t0, Period: time.Duration(period) * time.Second, Catchup: time.Second, Genesis: genesis, BeaconID: "c06", BasePort: 32000})
+		wdStop := Watchdog("c06reshare", 150*time.Second)
+		defer wdStop()
 		bus := NewBus()
 		defer bus.CloseAll()
-		defer Watchdog("c06reshare", 150*time.Second)()
 		old, err := FastForward(bus, prev, 1, "c06", false)
 		if err != nil {
 			rt.Fatalf("fast-forward: %v", err)
@@ -451,6 +453,7 @@ func TestC06Reshare(t *testing.T) {
 		}
 		leader := remaining[rapid.IntRange(0, len(remaining)-1).Draw(rt, "leader")]
 		desc := fmt.Sprintf("reshare %s n0=%d t0=%d leave=%d add=%d t1=%d period=%ds leader=%s %s", scheme, n0, t0, leave, add, t1, period, leader.Addr, del)
+		WatchdogNote.Store(desc)
 		var addrs []string
 		for _, nd := range append(append([]*Node{}, remaining...), joiners...) {
 			addrs = append(addrs, nd.Addr)
